@@ -5,7 +5,7 @@ FILES = ["fandango/constraints/base.py", "fandango/constraints/expression.py", "
          "fandango/constraints/conjunction.py", "fandango/constraints/disjunct.py", "fandango/constraints/exists.py",
          "fandango/constraints/forall.py", "fandango/constraints/implication.py", "fandango/language/search.py",
          "fandango/language/parse/convert.py", "fandango/evolution/evaluation.py"]
-NPROG = 34
+NPROG = 35
 # programs that never hold on a two-record tree (twin asks for a violated tree instead)
 NEVER_TRUE_2REC = {9: False}
 ENCODED = ["ExpressionConstraint/ComparisonConstraint/ConjunctionConstraint/DisjunctionConstraint/ForallConstraint/ExistsConstraint.fitness",
